@@ -37,6 +37,7 @@ type ReqSpec struct {
 	Remote  string     `json:"remote,omitempty"`
 	Headers []KV       `json:"headers,omitempty"`
 	Body    []byte     `json:"body,omitempty"`
+	Chunked bool       `json:"chunked,omitempty"` // body sent with Transfer-Encoding: chunked (no declared length)
 	Sign    *SignReq   `json:"sign,omitempty"`
 	Basic   *KV        `json:"basic,omitempty"`
 	Route   int        `json:"route"`         // route whose header names / secrets the client aims at
@@ -189,7 +190,7 @@ func (w *IngressWorld) buildRequest(rs *ReqSpec) (*http.Request, error) {
 			headers = append(headers, KV{nonceH, rs.Sign.Nonce})
 		}
 	}
-	return NewRequest(rs.Method, target, rs.Host, rs.Remote, headers, body)
+	return NewRequest(rs.Method, target, rs.Host, rs.Remote, headers, body, rs.Chunked)
 }
 
 func pathOnly(p string) string {
@@ -257,10 +258,13 @@ func (w *IngressWorld) IngressStep(rs *ReqSpec) {
 	}()
 
 	if idx >= 0 {
-		if m := w.Spec.Routes[idx].Match; m != nil && len(m.Hosts) > 1 {
+		if m := w.Spec.matchOf(&w.Spec.Routes[idx]); m != nil && len(m.Hosts) > 1 {
 			if h := refNormalizeHost(req.Host); !refHostMatch(h, m.Hosts[:1]) && refHostMatch(h, m.Hosts) {
 				w.Res.probe("ingress.host.matched_by_later_list_entry")
 			}
+		}
+		if len(w.Spec.Routes[idx].MatchRefs) > 1 {
+			w.Res.probe("ingress.route.with_several_named_matchers")
 		}
 	}
 	if idx < 0 {
